@@ -426,6 +426,10 @@ func VerifC19LoadForm(shape int) {
 	g := zzC19Gen{src: zzC19Shapes[shape]}
 	x := g.value()
 	vrt.Carve("C19-symbol-load-form-unquoted", g.evalSym)
+	// Symbol.LoadForm itself still returns the bare symbol (Function.LoadForm relies on
+	// that for variable references): only a symbol that is the whole value is affected
+	topSym, isTopSym := x.(slip.Symbol)
+	vrt.Carve("C19-symbol-load-form-bare", isTopSym && topSym[0] != ':')
 	vrt.Carve("C19-hash-table-value-not-quoted", g.htBadVal)
 	vrt.Carve("C19-hash-table-key-dropped", g.htBadKey)
 	vrt.Carve("C19-array-not-adjustable-lost", g.nonAdj)
@@ -1135,6 +1139,8 @@ func VerifC19SnapVar(shape int, text int) {
 	vrt.Carve("C19-hash-table-value-not-quoted", text != 0 && g.htBadVal)
 	vrt.Carve("C19-snapshot-unreadable-in-quoted-list", text != 0 && g.htNested)
 	vrt.Carve("C19-array-not-adjustable-lost", text != 0 && g.nonAdjVec)
+	// the snapshot writes a vector as the literal #( ... ), not by its load form
+	vrt.Carve("C19-snapshot-vector-literal-adjustable", text != 0 && g.nonAdjVec)
 	scope := slip.NewScope()
 	name := slip.Symbol("zzc19-snap-var")
 	slip.ReadString("(defvar zzc19-snap-var nil)", scope).Eval(scope, nil)
